@@ -823,7 +823,9 @@ pub fn lookup_cost(p: &Program, r: &RunResult, checked: &mut usize, max_seen: &m
 /// C14 (concurrent half): removals never make the table grow; lengths only ever double.
 pub fn no_growth_on_removal(p: &Program, r: &RunResult) -> Vec<Violation> {
     let mut out = Vec::new();
-    let removal_only = p.threads.iter().flatten().all(|o| {
+    // (a predicate that re-inserts the entry it is shown makes its retain an inserting operation)
+    let reinserting = p.threads.iter().flatten().any(|o| matches!(o, Op::Retain(Pred::ReinsertReject(..)) | Op::RetainForce(Pred::ReinsertReject(..))));
+    let removal_only = !reinserting && p.threads.iter().flatten().all(|o| {
         matches!(
             o,
             Op::Remove(..) | Op::RemoveEntry(..) | Op::Compute(_, CFn::Remove, _) | Op::Retain(..) | Op::RetainForce(..) | Op::Clear | Op::Get(..) | Op::Contains(..) | Op::GetKV(..) | Op::Len | Op::EqSelf | Op::IterAll(..) | Op::IterOpen(..) | Op::IterNext(..) | Op::IterClose | Op::Pin | Op::Unpin | Op::Refresh | Op::Flush | Op::Recheck
